@@ -15,7 +15,8 @@ Inductive case :=
 | Helper (values cfgw : list Q) (failed : list bool) (answers : list (nat * nat * list Q))
 | Filt (cfg : config) (m : method) (objs : list (list oQ)) (cns : option (list (list oQ)))
        (obs : outcome (list Q))
-| E2E (c : e2e_case).
+| E2E (c : e2e_case)
+| Seq (c : seq_case).
 
 Definition is_sort (m : method) : bool :=
   match m with SortObjective _ _ _ | SortConstraint _ _ _ => true | _ => false end.
@@ -28,4 +29,5 @@ Definition check_case (c : case) : bool :=
                  select_answer_ok values cfgw failed (fst (fst a)) (snd (fst a)) (snd a)) answers
   | Filt cfg m objs cns obs => is_sort m && filter_answer_ok cfg m objs cns obs
   | E2E x => e2e_ok x
+  | Seq x => seq_ok x
   end.
